@@ -2070,8 +2070,29 @@ def _any_ne(it, key, raw, args):
     return b_not(values_eq(it, args[0], args[1]))
 
 
+def _cmp_op(op):
+    def f(it, key, raw, args):
+        a0 = deref(args[0])
+        if isinstance(a0, Agg) and a0.ty and (it.prog.traitimpl.get((a0.ty, 'Ord', 'cmp')) or it.prog.traitimpl.get((a0.ty, 'PartialOrd', 'partial_cmp'))):
+            # the provided methods lt/le/gt/ge of PartialOrd go through the type's own comparison
+            from .models_coll import cmp_values
+            c = it.prog.traitimpl.get((a0.ty, 'Ord', 'cmp'))
+            if c:
+                o = it.run(c[0], [Ref(Cell(a0)), Ref(Cell(deref(args[1])))]).variant
+            else:
+                r = it.run(it.prog.traitimpl[(a0.ty, 'PartialOrd', 'partial_cmp')][0], [Ref(Cell(a0)), Ref(Cell(deref(args[1])))])
+                if r.variant == 0:
+                    return False
+                o = r.fields[0].v.variant
+            if o > 127:
+                o -= 256
+            return {'lt': o < 0, 'le': o <= 0, 'gt': o > 0, 'ge': o >= 0}[op]
+        return lex_cmp(it, args[0], args[1], op)
+    return f
+
+
 for _op in ('lt', 'le', 'gt', 'ge'):
-    MODELS['<* as PartialOrd>::%s' % _op] = (lambda op: lambda it, key, raw, args: lex_cmp(it, args[0], args[1], op))(_op)
+    MODELS['<* as PartialOrd>::%s' % _op] = _cmp_op(_op)
 
 
 @model('<* as Ord>::cmp')
